@@ -35,77 +35,71 @@ func runC09(c *Ctx, r *Report) {
 	// the heads of the rebuilt log: fetched entries whose hash equals a manifest head
 	{
 		fm := p.FuncI("", "", "fromMultihash")
-		// the local that ends up in Snapshot.Heads
-		var headsObj types.Object
-		walkNoLit(fm.Body, func(n ast.Node) bool {
-			if kv, ok := n.(*ast.KeyValueExpr); ok {
-				if k, ok := kv.Key.(*ast.Ident); ok && k.Name == "Heads" {
-					if id, ok := ast.Unparen(kv.Value).(*ast.Ident); ok {
-						headsObj = p.ObjOf(fm, id)
-					}
+		sfm := p.SSAFunc(fm)
+		var hv ssa.Value
+		allInstrs(sfm, false, func(ins ssa.Instruction) {
+			if st, ok := ins.(*ssa.Store); ok {
+				if f, fa := fieldOf(st.Addr); f != nil && f.Name() == "Heads" && namedOf(fa.X.Type()) == p.Named("iface", "Snapshot") {
+					hv = st.Val
 				}
 			}
-			return true
 		})
 		key := r.Key("R-C09.2", fm, "heads-selection", "")
 		nsel := 0
 		bad := ""
-		if headsObj != nil {
-			walkNoLit(fm.Body, func(n ast.Node) bool {
-				as, ok := n.(*ast.AssignStmt)
-				if !ok || len(as.Lhs) != 1 || len(as.Rhs) != 1 {
-					return true
+		if hv != nil {
+			for x := range backSlice(hv, nil) {
+				call, ok := x.(*ssa.Call)
+				if !ok {
+					continue
 				}
-				id, ok := ast.Unparen(as.Lhs[0]).(*ast.Ident)
-				if !ok || p.ObjOf(fm, id) != headsObj {
-					return true
+				b, isB := call.Call.Value.(*ssa.Builtin)
+				if !isB || b.Name() != "append" || len(call.Call.Args) < 2 {
+					continue
 				}
-				call, ok := ast.Unparen(as.Rhs[0]).(*ast.CallExpr)
-				if !ok || p.Builtin(fm, call) != "append" {
-					return true
+				if sl, ok := call.Type().Underlying().(*types.Slice); !ok || !strings.HasSuffix(sl.Elem().String(), "cid.Cid") {
+					continue
 				}
 				nsel++
-				// innermost guard: an equality (==, or an Equals call) on the taken branch
-				var guard *ast.IfStmt
-				var child ast.Node = as
-				for cur := p.parent[ast.Node(as)]; cur != nil && cur != ast.Node(fm.Body); cur = p.parent[cur] {
-					if ifs, ok := cur.(*ast.IfStmt); ok {
-						guard = ifs
-						break
-					}
-					child = cur
-				}
+				// some equality (==, Equals, a lookup's found-flag) whose true branch dominates the selection
 				okg := false
-				if guard != nil && insideNode(p, child, guard.Body) {
-					switch c := ast.Unparen(guard.Cond).(type) {
-					case *ast.BinaryExpr:
-						okg = c.Op == token.EQL
-					case *ast.CallExpr:
-						if se, ok := ast.Unparen(c.Fun).(*ast.SelectorExpr); ok && se.Sel.Name == "Equals" {
+				fnc := call.Parent()
+				for _, a := range fnc.Blocks {
+					iff, ok := a.Instrs[len(a.Instrs)-1].(*ssa.If)
+					if !ok || !a.Succs[0].Dominates(call.Block()) {
+						continue
+					}
+					switch c := iff.Cond.(type) {
+					case *ssa.BinOp:
+						if c.Op == token.EQL {
 							okg = true
 						}
-					case *ast.Ident:
-						// the found-flag of a lookup in a set built from the manifest heads
-						if ia, ok := guard.Init.(*ast.AssignStmt); ok && len(ia.Lhs) == 2 && len(ia.Rhs) == 1 {
-							if okid, ok := ia.Lhs[1].(*ast.Ident); ok && okid.Name == c.Name {
-								switch ast.Unparen(ia.Rhs[0]).(type) {
-								case *ast.IndexExpr, *ast.CallExpr:
-									okg = true
-								}
+					case *ssa.Call:
+						if c.Call.IsInvoke() && c.Call.Method.Name() == "Equals" {
+							okg = true
+						} else if cal := c.Call.StaticCallee(); cal != nil && (cal.Name() == "Equals" || cal.Name() == "Equal") {
+							okg = true
+						}
+					case *ssa.Extract:
+						if c.Index == 1 {
+							switch t := c.Tuple.(type) {
+							case *ssa.Lookup:
+								okg = t.CommaOk
+							case *ssa.Call:
+								okg = true
 							}
 						}
 					}
 				}
 				if !okg {
-					bad = p.Pos(as.Pos())
+					bad = p.Pos(call.Pos())
 				}
-				if ls := enclosingLoops(p, fm, as); len(ls) < 1 {
-					bad = p.Pos(as.Pos()) + " (not inside a scan of the fetched entries against the manifest heads)"
+				if !blockInCycle(call.Block()) {
+					bad = p.Pos(call.Pos()) + " (not inside a scan of the fetched entries)"
 				}
-				return true
-			})
+			}
 		}
-		r.Check(headsObj != nil && nsel > 0 && bad == "", "R-C09.2", key, fm.Body.Pos(),
+		r.Check(hv != nil && nsel > 0 && bad == "", "R-C09.2", key, fm.Body.Pos(),
 			"the rebuilt log's heads are the fetched entries whose hash equals a manifest head",
 			"fromMultihash does not select as heads exactly the fetched entries whose hash equals a manifest head (selection at "+bad+" is not guarded by that equality): the rebuilt log starts from other heads than the published ones")
 	}
@@ -290,16 +284,42 @@ func runC09(c *Ctx, r *Report) {
 			r.Violate("R-C09.2", key, fn.Body.Pos(), cn.name+" does not call "+cn.loader)
 			continue
 		}
-		ent := storeTo(sf, optsT, "Entries")
-		okE := ent != nil && backSlice(ent, nil)[ldCall]
+		// the options struct handed to NewLog, also when a helper builds it from its parameters
+		var newLogCall *ssa.Call
+		allInstrs(sf, false, func(ins ssa.Instruction) {
+			if call, ok := ins.(*ssa.Call); ok {
+				if f := calleeOf(call); f != nil && f.Name() == "NewLog" {
+					newLogCall = call
+				}
+			}
+		})
+		fieldVal := func(name string) ssa.Value {
+			if newLogCall == nil || len(newLogCall.Call.Args) < 3 {
+				return storeTo(sf, optsT, name)
+			}
+			for _, st := range storesToBases(sf, structBases(newLogCall.Call.Args[2], optsT))[name] {
+				return st.Val
+			}
+			return nil
+		}
+		dependsOn := func(v ssa.Value, ctrl bool) bool {
+			if v == nil {
+				return false
+			}
+			for x := range sliceWithArgs(v, sf, ctrl) {
+				if x == ssa.Value(ldCall) {
+					return true
+				}
+			}
+			return false
+		}
+		okE := dependsOn(fieldVal("Entries"), false)
 		okI, okH := true, true
 		if cn.id {
-			idv := storeTo(sf, optsT, "ID")
-			okI = idv != nil && backSlice(idv, nil)[ldCall]
+			okI = dependsOn(fieldVal("ID"), false)
 		}
 		if cn.heads {
-			hv := storeTo(sf, optsT, "Heads")
-			okH = hv != nil && backSliceOpt(hv, nil, true)[ldCall]
+			okH = dependsOn(fieldVal("Heads"), true)
 		}
 		r.Check(okE && okI && okH, "R-C09.2", key, ldCall.Pos(), "NewLog receives the loader's entries"+map[bool]string{true: ", id", false: ""}[cn.id]+map[bool]string{true: " and heads", false: ""}[cn.heads],
 			fmt.Sprintf("%s does not hand the loader's result to NewLog (entries=%v id=%v heads=%v): the rebuilt log differs from the published one", cn.name, okE, okI, okH))
